@@ -8,19 +8,22 @@ SAFE_ATOMS = list("+-*â€ºâ€¹Nd:D_$\"W!^=<>wÉ¾Ên?,â€¦â‚´Â£Â¥â…›Â¾â€ Â¬âˆ§âˆ¨á¸ƒâ
 
 
 def observe(case):
-    text, flags, inputs = case
+    text, flags, inputs = case[:3]
+    online = len(case) > 3 and case[3]
     try:
-        return instrument.run_traced(text, flags, inputs)
+        return instrument.run_traced(text, flags, inputs, online=online)
     except BaseException as e:  # noqa: BLE001  harness problem: report as such
         return {"text": common.cps(text), "flags": sorted(set(flags)), "inputs": [],
+                "online": online,
                 "ev": [{"ev": "Final", "stack": [], "out": [], "d": [0, 0, 0, 0], "raised": "harness:" + type(e).__name__,
-                        "ctx": {"x": "?"}}]}
+                        "ctx": {"x": "?"}, "host": 0, "rec2": 0, "canary": 0}]}
 
 
 def timed_out(case):
-    text, flags, inputs = case
-    return {"text": common.cps(text), "flags": sorted(set(flags)), "inputs": [],
-            "ev": [{"ev": "Final", "stack": [], "out": [], "d": [0, 0, 0, 0], "raised": "timeout", "ctx": {"x": "?"}}]}
+    text, flags, inputs = case[:3]
+    return {"text": common.cps(text), "flags": sorted(set(flags)), "inputs": [], "online": len(case) > 3 and case[3],
+            "ev": [{"ev": "Final", "stack": [], "out": [], "d": [0, 0, 0, 0], "raised": "timeout", "ctx": {"x": "?"},
+                    "host": 0, "rec2": 0, "canary": 0}]}
 
 
 def validate(scratch, cases, chunk=600):
